@@ -176,8 +176,8 @@ func init() {
 		MinNontrivial: 5000,
 		Streams: []Stream{
 			{Name: "lattice", N: c12LatticeN, Run: c12Lattice, Exhaustive: true},
-			{Name: "random", N: func(c *Ctx) int { return tierN(c, 20000, 400000) }, Run: c12Random},
-			{Name: "direct", N: func(c *Ctx) int { return tierN(c, 40000, 800000) }, Run: c12Direct},
+			{Name: "random", N: func(c *Ctx) int { return tierN(c, 20000, 1500000) }, Run: c12Random},
+			{Name: "direct", N: func(c *Ctx) int { return tierN(c, 40000, 3000000) }, Run: c12Direct},
 		},
 	})
 }
